@@ -176,6 +176,9 @@ def gen_experiment(rng, run_id, indirect=None, en2d=False, big=False):
 def gen_pix_call(rng, n, n_runs=None, convert=True, f32_signal=False, en2d=False, big=False, run_ids='seq'):
     if n_runs is None:
         n_runs = rng.randrange(1, 4)
+    if n == 0:
+        # the range of an empty row is scipp's identity element pushed through to_unit; only modelled for the documented units
+        convert, f32_signal = False, False
     ids = list(range(n_runs)) if run_ids == 'seq' else sorted(rng.sample(range(0, 10 * n_runs + 5), n_runs))
     return {'kind': 'pix', 'npix': n, 'rows': gen_rows(rng, n, convert, f32_signal), 'n_dims': rng.choice([None, None, 4, 3]),
             'experiments': [gen_experiment(rng, i, en2d=en2d, big=big and k == 0) for k, i in enumerate(ids)]}
